@@ -483,7 +483,13 @@ type Axiom struct {
 	File string
 }
 
+type Alias struct {
+	Name, Func, ResType string
+}
+
 type Specs struct {
+	Aliases     map[string]*Alias
+	Inline      map[string]bool
 	Contracts   map[string]*Contract
 	GhostFields map[string]*GhostField
 	GhostVars   map[string]*GhostVar
@@ -497,7 +503,7 @@ type Specs struct {
 
 func NewSpecs() *Specs {
 	return &Specs{Contracts: map[string]*Contract{}, GhostFields: map[string]*GhostField{},
-		GhostVars: map[string]*GhostVar{}, SpecFuncs: map[string]*SpecFunc{}, SharedTypes: map[string]bool{}}
+		GhostVars: map[string]*GhostVar{}, SpecFuncs: map[string]*SpecFunc{}, SharedTypes: map[string]bool{}, Aliases: map[string]*Alias{}, Inline: map[string]bool{}}
 }
 
 func parseClause(rest string) (Clause, error) {
@@ -658,6 +664,12 @@ func (S *Specs) LoadFile(path string, extern bool) error {
 				}
 				(*target)[strings.TrimPrefix(rest[:i], "lemma ")] = append((*target)[strings.TrimPrefix(rest[:i], "lemma ")], c)
 			}
+		case "alias":
+			f := strings.Fields(rest)
+			if len(f) != 2 || cur == nil {
+				return fail(fmt.Errorf("alias <name> <result type>"))
+			}
+			S.Aliases[f[0]] = &Alias{Name: f[0], Func: cur.Func, ResType: f[1]}
 		case "pure":
 			cur.Pure = true
 			cur.HasAssign = true
@@ -798,6 +810,10 @@ func (S *Specs) LoadFile(path string, extern bool) error {
 				return fail(err)
 			}
 			S.Lemmas = append(S.Lemmas, &Lemma{Name: c.Name, E: c.E, Src: c.Src, Props: append([]string{}, curProps...), File: path})
+		case "inline":
+			for _, t := range strings.Fields(rest) {
+				S.Inline[t] = true
+			}
 		case "shared":
 			for _, t := range strings.Fields(strings.ReplaceAll(rest, ",", " ")) {
 				S.SharedTypes[t] = true
